@@ -135,7 +135,27 @@ class Site:
 
 
 def is_listener_call(e):
-    return e.kind == "call" and e.depth == 0 and e.decl.endswith("FnMut::call_mut")
+    """a call of the generator's listener parameter, made by the generator itself or by a private helper /
+    closure inlined into it (the callee is the pointer to the caller's `listener`)"""
+    if not (e.kind == "call" and e.decl.endswith("FnMut::call_mut") and e.args):
+        return False
+    if e.depth == 0:
+        return True
+    a = e.args[0]
+    return a[0] == "ptr" and a[1][0] == "P" and a[2] == ()
+
+
+def site_keys(p):
+    """key of each listener call: the call site in the analysed function (+ the inner site when the call is made
+    by an inlined helper)"""
+    out = {}
+    top = None
+    for e in p.events:
+        if e.depth == 0:
+            top = e.bb
+        if is_listener_call(e):
+            out[e.idx] = top if e.depth == 0 else (top, e.fn, e.bb)
+    return out
 
 
 def split_conds(L, conds, to_expr):
@@ -165,9 +185,11 @@ def extract_sites(f, L, name, cgen=None, tgen=None):
     paths = se.run()
     sites = {}
     for p in paths:
+        keys = site_keys(p)
         for e in p.events:
             if not is_listener_call(e):
                 continue
+            skey = keys[e.idx]
             arg = e.args[1]
             pm = arg[1][0] if arg[0] == "tuple" and arg[1] else None
             if pm is None or pm[0] != "agg":
@@ -176,21 +198,21 @@ def extract_sites(f, L, name, cgen=None, tgen=None):
             to = L.lift(fields.get("to"))
             frm = L.lift(fields.get("from"))
             loop, guards, nonempty = split_conds(L, p.conds[:e.ncond], to)
-            s = sites.get(e.bb)
+            s = sites.get(skey)
             if s is None:
                 s = Site()
-                s.bb = e.bb
+                s.bb = skey
                 s.line = e.line
                 s.frm = frm
                 s.to = to
                 s.piece = L.lift(fields.get("piece"))
                 s.loop = loop
                 s.nonempty_guard = nonempty
-                sites[e.bb] = s
+                sites[skey] = s
             else:
                 s.nonempty_guard = s.nonempty_guard and nonempty
             s.guards.append(guards)
-    return body, paths, [sites[k] for k in sorted(sites)]
+    return body, paths, [sites[k] for k in sorted(sites, key=repr)]
 
 
 def slider_implications(atoms):
@@ -772,8 +794,11 @@ def check_abort_contract(ctx, f, L):
                                       "generator returns false although a listener call's result was not tested to be false", loc(body, e.line))
                         if not ls:
                             ctx.ok("%s:false-exit-no-call" % tag)
+                    elif ls and p.ret == ls[-1].ret:
+                        # the last listener call's verdict handed back as it is: true exactly when it asked to abort
+                        ctx.ok("%s:verdict-passed-through" % tag)
                     else:
-                        ctx.fail("%s:ret" % tag, "generator returns a non-constant flag: %s" % sym.show(p.ret)[:80], loc(body))
+                        ctx.fail("%s:ret" % tag, "generator returns a flag that is neither constant nor the last listener verdict: %s" % sym.show(p.ret)[:80], loc(body))
                 elif p.end == "loopback":
                     for e in ls:
                         tested = [c for c in p.conds if c[0] == e.ret]
